@@ -140,6 +140,9 @@ FENCE_PATTERN = re.compile(r"^( *)((`{3,})([^\n`]*)?)$")
 _UNESCAPE_MAP = {'"': '"', "\\": "\\", "n": "\n", "t": "\t"}
 _UNESCAPE_PATTERN = re.compile(r'\\(["\\nt])')
 
+# Blank lines (only spaces) before the first line that has content
+_LEADING_BLANK_LINES = re.compile(r"(?: *\n)*")
+
 # Detects inline fence syntax: KEY::```info_tag (fence on same line as key)
 # This is invalid OCTAVE -- the fence must start on the line AFTER the key
 _INLINE_FENCE_PATTERN = re.compile(r"^.*::(`{3,})")
@@ -759,6 +762,10 @@ def tokenize(content: str, lenient: bool = False) -> tuple[list[Token], list[Any
     # Compile all patterns
     compiled_patterns = [(re.compile(pattern), token_type) for pattern, token_type in TOKEN_PATTERNS]
 
+    # Leading blank lines are layout, and stripped YAML frontmatter is replaced by blank
+    # lines: the document starts at the first line that is not blank
+    sentinel_pos = _LEADING_BLANK_LINES.match(content).end()  # type: ignore[union-attr]
+
     while pos < len(content):
         # Issue #235: Check if current position is the start of a fence span
         # Emit FENCE_OPEN, LITERAL_CONTENT, FENCE_CLOSE tokens and skip past span
@@ -859,10 +866,10 @@ def tokenize(content: str, lenient: bool = False) -> tuple[list[Token], list[Any
         # Try to match token patterns
         matched = False
         for pattern, token_type in compiled_patterns:
-            # GRAMMAR_SENTINEL must only match at document start (position 0)
-            # to prevent silent data loss in nested assignments like NOTE::OCTAVE::5.1.0
-            if token_type == TokenType.GRAMMAR_SENTINEL and pos != 0:
-                continue  # Skip GRAMMAR_SENTINEL pattern if not at position 0
+            # GRAMMAR_SENTINEL must only match at document start (the first line that is not
+            # blank) to prevent silent data loss in nested assignments like NOTE::OCTAVE::5.1.0
+            if token_type == TokenType.GRAMMAR_SENTINEL and pos != sentinel_pos:
+                continue  # Skip GRAMMAR_SENTINEL pattern anywhere else
 
             match = pattern.match(content, pos)
             if match:
